@@ -26,6 +26,30 @@ Theorem C02_exactly_once_in_order : forall (s : N) (p : Z) (h : list top),
 Proof. exact once_in_order. Qed.
 Print Assumptions C02_exactly_once_in_order.
 
+(* The two hypotheses follow from conditions on the history alone.
+   [wf_session s p h]: LOGIN records of s carry pid p; there is at most one of them; no other
+   session's LOGIN record carries pid p; at most one valid login with pid p is delivered — the
+   "each sshd PID logs in once, PIDs and session IDs are not reused" discipline of C01.
+   [no_late_cleanup s p h]: no cleanup call in h has a cut-off later than the arrival of the
+   LOGIN record of s / the logged-at time of the login with pid p ("within the staleness window"). *)
+Theorem C02_hypotheses_from_history : forall (s : N) (p : Z) (h : list top),
+  (wf_session s p h -> allowed_run s p PClean h) /\
+  (no_late_cleanup s p h -> keeps_run s p PClean h).
+Proof. exact hypotheses_from_history. Qed.
+Print Assumptions C02_hypotheses_from_history.
+
+(* ... so, stated purely over histories: *)
+Theorem C02_exactly_once_in_order_wf : forall (s : N) (p : Z) (h : list top),
+  wf_session s p h -> no_late_cleanup s p h ->
+  let out := projs s (outs h) in
+  let E := events_from_rec s p h in
+  (rec_seen s p h && login_seen p h = false -> out = []) /\
+  (rec_seen s p h && login_seen p h = true ->
+     exists l k, In_login l h /\ login_p p l = true /\
+                 out = map (pair l) (firstn k E) /\ length (take_until_disp E) <= k /\ k <= length E).
+Proof. exact once_in_order_wf. Qed.
+Print Assumptions C02_exactly_once_in_order_wf.
+
 (* The correlator's outputs for s are those of the five-phase machine, step by step. *)
 Theorem C02_refines_machine : forall (s : N) (p : Z) (h : list top),
   allowed_run s p PClean h ->
@@ -47,6 +71,18 @@ Example C02_example_outputs :
   forall k, In k [0; 1; 2; 3; 4] ->
   map (fun x => a_id (snd x)) (projs 7 (outs (split_at k))) = [0; 1; 2; 3].
 Proof. intros k H. cbn in H. repeat (destruct H as [<-|H]; [vm_compute; reflexivity|]). contradiction. Qed.
+
+Example C02_example_wf :
+  forall k, In k [0; 1; 2; 3; 4] -> wf_session 7 70 (split_at k) /\ no_late_cleanup 7 70 (split_at k).
+Proof.
+  intros k H. cbn in H.
+  repeat (destruct H as [<-|H]; [split; [constructor; [intros o Ho; cbn in Ho; repeat (destruct Ho as [<-|Ho]; [cbn; tauto|]); contradiction
+                                                     |vm_compute; repeat constructor
+                                                     |intros o Ho; cbn in Ho; repeat (destruct Ho as [<-|Ho]; [reflexivity|]); contradiction
+                                                     |vm_compute; repeat constructor]
+                                       |split; intros; cbn in *; repeat match goal with H : _ \/ _ |- _ => destruct H end; try discriminate; try contradiction]|]).
+  contradiction.
+Qed.
 
 Example C02_example_hyps :
   forall k, In k [0; 1; 2; 3; 4] ->
